@@ -16,8 +16,10 @@ import (
 	"os"
 	"reflect"
 	"sort"
+	"strconv"
 	"strings"
 	"sync"
+	"sync/atomic"
 	"time"
 
 	mcp "trpc.group/trpc-go/trpc-mcp-go"
@@ -27,7 +29,7 @@ import (
 func main() {
 	hk.Main(&hk.Component{Name: "reqpaths", Rule: "clients {Streamable with GET SSE, legacy SSE} x all 2^5 combinations of {static headers (2 keys, 3 values), before-request function, " +
 		"custom HTTPReqHandler, custom path (client URL points at a wrong path, WithClientPath at the served one), custom http.Client} x call histories " +
-		"{initialize, tools/list, tools/list retried after a 503, notification, answer to a server-issued roots/list and to an unknown server request, session DELETE} " +
+		"{initialize, initialize failing at its first request (503 / useless content type / refused by the before-request function) and repeated with another context value, tools/list, tools/list retried after a 503, notification, answer to a server-issued roots/list and to an unknown server request, session DELETE} " +
 		"(per combination: the shortest history emitting each request kind and the full history; edge histories; seeded random histories) against a recording reference server; plus, for every combination with a " +
 		"before-request function and every request kind, a run in which the function fails for that kind. " +
 		"non-trivial = a distinct (client, configuration, history) with at least one customisation configured and at least three observed requests, or a refused request",
@@ -63,6 +65,8 @@ func allCfgs() []cfg {
 }
 
 var staticHeaders = http.Header{"X-Verif-A": {"a1"}, "X-Verif-B": {"b1", "b2"}}
+
+const urlQuery = "tenant=verif"
 
 const (
 	hVia    = "X-Verif-Via"
@@ -126,6 +130,11 @@ type scenario struct {
 	changed chan struct{}
 
 	histLen int
+
+	nonce      atomic.Int64
+	nonces     map[string]bool            // nonces already seen on an earlier request
+	refuseOnce atomic.Pointer[failTarget] // the before-request function refuses the next matching request, once
+	noStream   bool                       // Streamable: a failed initialize answer disabled the listening stream for good
 }
 
 // Findings are collected and handed to the kit at the end, one witness per fingerprint: the one in which the
@@ -189,7 +198,10 @@ func (sc *scenario) before(ctx context.Context, req *http.Request) error {
 	if sc.fail != nil && sc.fail.Kind == kind && (sc.fail.RPC == "" || sc.fail.RPC == rpc) {
 		return errBefore
 	}
-	req.Header.Add(hBefore, "1")
+	if ft := sc.refuseOnce.Load(); ft != nil && ft.Kind == kind && (ft.RPC == "" || ft.RPC == rpc) && sc.refuseOnce.CompareAndSwap(ft, nil) {
+		return errBefore
+	}
+	req.Header.Add(hBefore, strconv.FormatInt(sc.nonce.Add(1), 10)) // a fresh nonce per call: a copied header is no proof of a call
 	if tag == "" {
 		tag = "-"
 	}
@@ -251,7 +263,7 @@ func (sc *scenario) open(sid string) error {
 	if legacy {
 		good = ssePath
 	}
-	url := sc.srv.ts.URL + good
+	url := sc.srv.ts.URL + good + "?" + urlQuery // the configured URL carries a query, which is part of where requests must go
 	opts := []mcp.ClientOption{mcp.WithClientLogger(hk.QuietLogger{})}
 	if !legacy {
 		opts = append(opts, mcp.WithClientGetSSEEnabled(true))
@@ -266,7 +278,7 @@ func (sc *scenario) open(sid string) error {
 		opts = append(opts, mcp.WithHTTPReqHandler(&markHandler{"custom"}))
 	}
 	if sc.cfg.Path {
-		url = sc.srv.ts.URL + wrongPath
+		url = sc.srv.ts.URL + wrongPath + "?" + urlQuery
 		opts = append(opts, mcp.WithClientPath(good))
 	}
 	if sc.cfg.Client {
@@ -309,21 +321,47 @@ func tagged(tag string) (context.Context, context.CancelFunc) {
 
 // opWindow: the records [From, To) arrived while operation Op (with context tag Tag) ran.
 type opWindow struct {
-	Op, Tag  string
-	InitTag  string // tag of the successful handshake preceding (or being) this operation
-	From, To int
-	Err      error
+	Succeeded bool // a handshake operation that completed
+	Op, Tag   string
+	InitTag   string // tag of the successful handshake preceding (or being) this operation
+	From, To  int
+	Err       error
 }
 
 // do runs one operation of a history and returns its window of records.
 func (sc *scenario) do(op string, i int, nextID *int) opWindow {
-	w := opWindow{Op: op, Tag: fmt.Sprintf("%s#%d", op, i), From: len(sc.srv.snapshot())}
+	w := opWindow{Op: op, Tag: fmt.Sprintf("%s#%d", op, i+1), From: len(sc.srv.snapshot())} // context value of the i-th operation: i+1
 	ctx, cancel := tagged(w.Tag)
 	defer cancel()
 	switch op {
+	case "initFail503", "initFailType", "initFailRefused":
+		// a handshake that fails at its first request (legacy: the connect; Streamable: the initialize POST)
+		switch op {
+		case "initFail503":
+			sc.srv.failInit.Store("503")
+		case "initFailType":
+			sc.srv.failInit.Store("type")
+		default:
+			ft := &failTarget{Kind: "request", RPC: "initialize"}
+			if sc.client == "sse" {
+				ft = &failTarget{Kind: "connect"}
+			}
+			sc.refuseOnce.Store(ft)
+		}
+		_, w.Err = sc.cl.Initialize(ctx, &mcp.InitializeRequest{})
+		if sc.srv.failInit.Swap("") == "" && op != "initFailRefused" && sc.client == "streamable" {
+			sc.noStream = true // the failure was delivered: the transport now believes the server is stateless
+		}
+		sc.refuseOnce.Store(nil)
+		if w.Err == nil {
+			w.Succeeded = true // unexpectedly successful: shows up in the trace
+		}
 	case "initialize":
 		_, w.Err = sc.cl.Initialize(ctx, &mcp.InitializeRequest{})
-		if w.Err == nil && sc.client == "streamable" {
+		if w.Err == nil {
+			w.Succeeded = true
+		}
+		if w.Err == nil && sc.client == "streamable" && !sc.noStream {
 			// the listening stream is opened by a goroutine: wait until the GET arrived (any path) — or, when the
 			// before-request function refuses GETs, until it has been asked
 			sc.waitTargetOrRecIf(sc.fail != nil && sc.fail.Kind == "stream", func(r rec) bool { return r.Kind == "stream" })
@@ -384,11 +422,11 @@ func (sc *scenario) observe(r rec, w opWindow) map[string]any {
 	}
 	pathOK, sessionOK := false, false
 	if sc.client == "streamable" {
-		pathOK = r.Path == streamablePath
+		pathOK = r.Path == streamablePath && r.Query == urlQuery
 		sessionOK = !r.Issued || r.Hdr.Get("Mcp-Session-Id") == sc.srv.sid
 	} else {
 		if r.Kind == "connect" {
-			pathOK = r.Path == ssePath
+			pathOK = r.Path == ssePath && r.Query == urlQuery
 			sessionOK = true
 		} else {
 			pathOK = r.Path == sseMsgPath
@@ -410,7 +448,17 @@ func (sc *scenario) observe(r rec, w opWindow) map[string]any {
 	case len(vs) > 1:
 		via = "unknown"
 	}
-	nBefore := len(r.Hdr.Values(hBefore))
+	// how often the before-request function ran for THIS request: nonces it put on it that no earlier request carried
+	nBefore := 0
+	if sc.nonces == nil {
+		sc.nonces = map[string]bool{}
+	}
+	for _, n := range r.Hdr.Values(hBefore) {
+		if !sc.nonces[n] {
+			sc.nonces[n] = true
+			nBefore++
+		}
+	}
 	ctx := "unseen"
 	if nBefore > 0 {
 		tags := r.Hdr.Values(hCtx)
@@ -430,7 +478,19 @@ func (sc *scenario) observe(r rec, w opWindow) map[string]any {
 			ctx = "other"
 		}
 	}
-	return map[string]any{"fn": fn, "kind": r.Kind, "verb": r.Method, "path": pathOK, "headers": headersOK, "session": sessionOK,
+	var seen any // the context value the before-request function saw (the number after '#' in the tag)
+	if tags := r.Hdr.Values(hCtx); nBefore > 0 && len(tags) > 0 {
+		if i := strings.LastIndex(tags[0], "#"); i >= 0 {
+			if n, err := strconv.Atoi(tags[0][i+1:]); err == nil && (ctx == "caller" || ctx == "handshake" || ctx == "other") {
+				seen = n
+			}
+		}
+	}
+	if ctx == "other" {
+		// the model has no value for a context it cannot classify; keep the class as the disagreement
+		seen = nil
+	}
+	return map[string]any{"seen": seen, "fn": fn, "kind": r.Kind, "verb": r.Method, "path": pathOK, "headers": headersOK, "session": sessionOK,
 		"via": via, "client": len(r.Hdr.Values(hClient)) > 0, "before": nBefore, "ctx": ctx}
 }
 
@@ -444,7 +504,7 @@ func allEq(xs []string, v string) bool {
 }
 
 // judge is the implementation-level oracle for one observed request: the property itself.
-func (sc *scenario) judge(o map[string]any, input any) {
+func (sc *scenario) judge(o map[string]any, input any, r rec, w opWindow) {
 	fn := o["fn"].(string)
 	bad := func(aspect, what string) {
 		report(sc.cfg, aspect, sc.histLen, hk.Violation{Fingerprint: "reqpaths:" + fn + ":" + aspect,
@@ -456,7 +516,7 @@ func (sc *scenario) judge(o map[string]any, input any) {
 		bad("verb", "wrong HTTP method")
 	}
 	if !o["path"].(bool) {
-		bad("path", "did not go to the configured URL path (custom path ignored)")
+		bad("path", fmt.Sprintf("did not go to the configured URL (custom path ignored, or the URL's query dropped): %s?%s", r.Path, r.Query))
 	}
 	if !o["headers"].(bool) {
 		bad("staticHeaders", "configured static headers missing")
@@ -483,7 +543,11 @@ func (sc *scenario) judge(o map[string]any, input any) {
 				want = "handshake"
 			}
 			if o["ctx"] != want {
-				bad("ctx", fmt.Sprintf("before-request function saw context values %q, want the %s's", o["ctx"], want))
+				wantTag := w.Tag
+				if o["kind"] == "answer" || o["kind"] == "stream" {
+					wantTag = w.InitTag
+				}
+				bad("ctx", fmt.Sprintf("before-request function saw context value %q (%v), want the %s's %q", strings.Join(r.Hdr.Values(hCtx), ","), o["ctx"], want, wantTag))
 			}
 		}
 	}
@@ -503,7 +567,7 @@ func runHistory(c *hk.Ctx, client string, cf cfg, retry bool, hist []string, sid
 	initTag := ""
 	for i, op := range hist {
 		w := sc.do(op, i, &nextID)
-		if op == "initialize" && w.Err == nil {
+		if w.Succeeded {
 			initTag = w.Tag // the handshake whose context the background requests inherit
 		}
 		w.InitTag = initTag
@@ -516,7 +580,7 @@ func runHistory(c *hk.Ctx, client string, cf cfg, retry bool, hist []string, sid
 		for _, r := range recs[w.From:w.To] {
 			o := sc.observe(r, w)
 			reqs = append(reqs, o)
-			sc.judge(o, input)
+			sc.judge(o, input, r, w)
 		}
 	}
 	// anything that arrived outside every window (must not happen: every wait is on the arrival)
@@ -664,6 +728,20 @@ func replay(c *hk.Ctx, sid func() string) {
 	runHistory(c, in.Client, in.Cfg, in.Retry, in.Hist, sid())
 }
 
+// withoutRefusals drops the refused handshakes from a history when no before-request function is configured.
+func withoutRefusals(h []string, cf cfg) []string {
+	if cf.Before {
+		return h
+	}
+	var out []string
+	for _, op := range h {
+		if op != "initFailRefused" {
+			out = append(out, op)
+		}
+	}
+	return out
+}
+
 // ---------------------------------------------------------------- the search
 
 var fullHistory = []string{"initialize", "tools", "toolsRetry", "notify", "roots", "rootsUnknown", "terminate"}
@@ -717,6 +795,23 @@ func run(c *hk.Ctx) {
 			}
 		}
 	}
+	// 2b. failed handshakes (first request answered 503 / with a useless content type / refused by the before-request
+	//     function) followed by a successful one called with another context value, then every kind of request:
+	//     nothing of a failed attempt's context may survive into the connect, the listening stream or the answers
+	failed := [][]string{
+		{"initFail503", "initialize", "tools", "notify", "roots", "rootsUnknown", "terminate"},
+		{"initFailType", "initialize", "roots", "tools", "notify", "terminate"},
+		{"initFailRefused", "initialize", "tools", "notify", "roots", "rootsUnknown", "terminate"},
+		{"initFailRefused", "initFail503", "initFailRefused", "initFailType", "initialize", "initialize", "roots", "tools"},
+		{"initFailRefused", "initFailRefused", "initialize", "roots", "notify", "terminate", "roots"},
+	}
+	for _, h := range failed {
+		for _, cf := range cfgs {
+			for _, cl := range clients {
+				runHistory(c, cl, cf, false, withoutRefusals(h, cf), sid())
+			}
+		}
+	}
 	// 3. a failing before-request function, for every kind of request
 	kinds := map[string][][2]string{
 		"streamable": {{"request", "handshake"}, {"notification", "handshake"}, {"request", ""}, {"notification", ""}, {"stream", ""}, {"answer", ""}, {"delete", ""}},
@@ -747,11 +842,17 @@ func run(c *hk.Ctx) {
 		cl := clients[c.Rng.Intn(2)]
 		cf := cfgs[c.Rng.Intn(32)]
 		var h []string
+		retry := c.Rng.Intn(2) == 0
+		if !retry && c.Rng.Intn(3) == 0 {
+			for k := 1 + c.Rng.Intn(3); k > 0; k-- {
+				h = append(h, []string{"initFail503", "initFailType", "initFailRefused"}[c.Rng.Intn(3)])
+			}
+			h = withoutRefusals(h, cf)
+		}
 		if c.Rng.Intn(8) != 0 {
 			h = append(h, "initialize")
 		}
 		n := 1 + c.Rng.Intn(maxLen)
-		retry := c.Rng.Intn(2) == 0
 		for j := 0; j < n; j++ {
 			x := c.Rng.Intn(total)
 			for k, w := range weights {
